@@ -166,4 +166,28 @@ mod verif_codecs {
         kani::cover!(b == a + 1);
         kani::cover!(a > b + 1 && q == a);
     }
+
+    // ------------------------------------------------------------------ C10: declared size == written size
+    static mut COUNT: usize = 0;
+    fn write_slice_count(_w: &mut TableWriter, bytes: &[u8]) { unsafe { COUNT += bytes.len(); } }
+    //@harness unit=U10.3 props=C10 tier=quick level=bounded bound="point-number sets of exactly 1, 127, 128 and 129 consecutive points (the count-encoding boundary)" timeout=900 fns=PackedPointNumbers::compute_size,PackedPointNumbers::write_into note="the size a tuple header declares for its point numbers equals the number of bytes written"
+    #[kani::proof]
+    #[kani::unwind(132)]
+    #[kani::stub(std::hash::RandomState::new, fixed_random_state)]
+    #[kani::stub(TableWriter::write_slice, write_slice_count)]
+    fn packed_points_declared_size_matches_written() {
+        let which: u8 = kani::any();
+        kani::assume(which < 4);
+        let n: usize = match which { 0 => 1, 1 => 127, 2 => 128, _ => 129 };
+        let mut pts: Vec<u16> = Vec::with_capacity(129);
+        let mut i = 0;
+        while i < n { pts.push(i as u16 * 2); i += 1; }
+        let pp = crate::tables::variations::PackedPointNumbers::Some(pts);
+        unsafe { COUNT = 0; }
+        let mut w = TableWriter::default();
+        pp.write_into(&mut w);
+        let written = unsafe { COUNT };
+        assert!(pp.compute_size() as usize == written);
+        kani::cover!(which == 2);
+    }
 }
